@@ -650,7 +650,9 @@ def natDigitsF : Nat → Nat → Nat → Bytes
 
 def natDigits (base n : Nat) : Bytes := natDigitsF (n + 1) base n
 
-/-- The text appended for an exit status above 3 (pluginchecktask.cpp:79-84). -/
+/-- The text the pinned tree appends for an exit status above 3 (pluginchecktask.cpp:79-84).  The WORDING is
+    not part of the property: `processFinished` takes the marker as an input (the harness reads the
+    implementation's own marker), this transcription only documents the current text. -/
 def terminatedSuffix (exit : Nat) : Bytes :=
   sTermA ++ natDigits 10 exit ++ sTermB ++ natDigits 16 exit ++ sTermC
 
@@ -662,9 +664,9 @@ structure CrObs where
   perfdata : List Bytes
   deriving Repr, DecidableEq
 
-def processFinished (exit : Int) (rawOutput : Bytes) : CrObs :=
+def processFinished (suffix : Bytes) (exit : Int) (rawOutput : Bytes) : CrObs :=
   let out := trim rawOutput                                                  -- :70
-  let out := if exit > 3 then out ++ terminatedSuffix exit.toNat else out   -- :72-85
+  let out := if exit > 3 then out ++ suffix else out                        -- :72-85 (`suffix` = the marker text)
   let co := parseCheckOutput out                                            -- :87
   { state := exitToState exit, exit := exit, output := co.1, perfdata := splitPerfdata co.2 }
 
